@@ -18,8 +18,10 @@ CLAIMS = {
  'C12': ("Exactly-one-terminal-result ledger for proposalShard under arbitrary symbolic op sequences (applied/dropped/tick+gc/close with symbolic keys, ids, ticks) and a 2-thread schedule exploration of committed() vs gc/Release/pool reuse.", "§4/C12"),
  'C13': ("Round trip, exact Size and SizeUpperLimit of the raftpb State and Entry codecs for fully symbolic 64-bit field values (pairs of fields for Entry) and small symbolic payloads.", "§4/C13"),
  'C14': ("BlockWriter->blockReader and SnapshotWriter->SnapshotReader byte identity for symbolic payloads under every write/read split, and detection of every single-byte alteration of a block stream (CRC modelled as an uninterpreted function with the one-byte-difference axiom).", "§4/C14"),
+ 'C15': ("Snapshot chunk transfer decided on the real transport.Chunk receiver, the real sender split/load code and the real rsm writer/validator over the real lni/vfs in-memory file system executed symbolically: the sender's chunks tile every file exactly; an in-order stream finalizes into byte-identical files with exactly one InstallSnapshot notification; under one perturbation of the stream (drop, duplicate, swap, foreign sender, wrong deployment id or binary version, corrupt byte, restart from chunk 0) exactly the next expected chunk is accepted, the stream finalizes iff the accepted chunks are the complete valid sequence, and the timeout collector removes a stalled stream's temp dir only after the timeout while a progressing stream is not collected; two streams do not interfere.", "§4/C15"),
  'C17': ("Bounded single-replica progress lemmas: tick-driven campaign within 2*electionTimeout for a voting member (never for non-voting/witness/removed), leader-transfer abort within electionTimeout and proposals accepted again, flow control cannot stay parked (heartbeat response un-pauses and re-replicates, rejection backs off, snapshot status ends snapshot state), NoOP reply to lower-term leaders under CheckQuorum/PreVote and step-down on higher terms. Cluster-level liveness is outside.", "§4/C17"),
  'C18': ("Role lemmas for every step (frame): non-voting/witness replicas never campaign or lead, witnesses never receive payloads or full snapshots, read hints only to voting members, raft-side kinds stay disjoint; plus TimeoutNow never makes a removed replica campaign, CheckQuorum counts active voting members only (independent count), quorums of commit/election/read confirmation checked against independent counts in the C02/C03/C06 harnesses.", "§4/C18"),
+ 'C20': ("ImportSnapshot decided end to end on one host (real tools.ImportSnapshot, server.Env/SSEnv, fileutil, rsm checksum code over the real in-memory FS, recording log store through Expert.LogDBFactory): a valid request finalizes the image and hands the log store a record whose membership is exactly the given list with every unlisted previous member removed; requests that re-admit a removed replica, change a member's address or kind, list the importing replica at another address, carry a checksum that does not match the file or miss the file are refused and leave the existing snapshot data untouched; plus the member-validation rules for fully symbolic replica ids.", "§4/C20"),
  'C19': ("entryLog/inMemory/Peer vs the logical-log abstraction: every query (lastIndex, firstIndex, term, lastTerm, upToDate, matchTerm, range reads, entriesToSave, entriesToApply) answers what the abstraction says for a symbolic log incl. pending snapshot, stale shadowed entries and the applied-index shortcut; append/restore commute with the abstraction and re-appended entries must be persisted again; one GetUpdate -> persist -> Commit cycle with arbitrary apply lag never changes the logical log, never hands an entry out twice, and keeps the representation invariant.", "§4/C19"),
 }
 NA = {
